@@ -467,8 +467,11 @@ PROPS['C18'] = {
                  'RQ.Par.saveNoPanic', 'RQ.Par.C18_par_fault_is_error_clean', 'RQ.Par.C18_par_outcome_clean'],
     'extra_modules': ['RQ.Props.C18Par', 'RQ.Props.C18ParClean'],
     'verdict': 'C18',
-    'jobs': [{'quick': ['pushfault', 'seed={seed}', 'n=2000', 'perws=8'], 'thorough': ['pushfault', 'seed={seed}', 'n=60000', 'perws=64']},
-             {'quick': ['pushfault', 'seed={seed}', 'n=1200', 'perws=8', 'threads=2,3,4'], 'thorough': ['pushfault', 'seed={seed}', 'n=30000', 'perws=64', 'threads=2,3,4,8']}],
+    # (thorough: up to 64 fault positions per workspace, the workspaces over six processes)
+    'jobs': [{'quick': ['pushfault', 'seed={seed}', 'n=2000', 'perws=8'], 'thorough': ['pushfault', 'seed={seed}1', 'n=3000', 'perws=64']},
+             {'quick': ['pushfault', 'seed={seed}', 'n=1200', 'perws=8', 'threads=2,3,4'], 'thorough': ['pushfault', 'seed={seed}1', 'n=1500', 'perws=64', 'threads=2,3,4,8']}] +
+            [{'quick': None, 'thorough': ['pushfault', 'seed={seed}%d' % k, 'n=3000', 'perws=64']} for k in range(2, 5)] +
+            [{'quick': None, 'thorough': ['pushfault', 'seed={seed}%d' % k, 'n=1500', 'perws=64', 'threads=2,3,4,8']} for k in range(2, 4)],
     'nontrivial': lambda l: True,
     'histogram': lambda c, d: ['op=' + (re.search(r'op=([a-z_]+)', c).group(1) if re.search(r'op=([a-z_]+)', c) else '?'),
                                'where=' + ('applied-patches' if '6170706c6965642d70617463686573;' in c.split('|=>|')[-1].split('op=')[-1][:120] else
